@@ -999,6 +999,7 @@ func TestC03(t *testing.T) {
 		var w struct {
 			Case
 			Path *rulepath.Case `json:"path"`
+			Busy int            `json:"busy"`
 		}
 		if err := vcore.LoadReplayCase(f, &w); err != nil {
 			t.Fatalf("replay %s: %v", f, err)
@@ -1006,6 +1007,12 @@ func TestC03(t *testing.T) {
 		if w.Path != nil {
 			vcore.E.Class("replayed")
 			runPath(t, *w.Path)
+			continue
+		}
+		if w.Busy > 0 {
+			vcore.E.Class("replayed")
+			vcore.E.Eval()
+			vcore.Report(t, runBusy(w.Busy), map[string]any{"busy": w.Busy})
 			continue
 		}
 		c := w.Case
@@ -1017,6 +1024,7 @@ func TestC03(t *testing.T) {
 	if explicit {
 		return
 	}
+	busyPart(t)
 	vcore.Check(t, vcore.N(300, 3000), func(rt *rapid.T) {
 		runPath(rt, rulepath.Gen(rt))
 	})
